@@ -2,7 +2,7 @@ SPECIFICATION Spec
 CONSTANTS
   BinOps = {"add", "sub", "mul", "truediv", "floordiv", "mod", "divmod", "pow", "matmul", "and", "or", "xor", "lshift", "rshift", "lt", "le", "gt", "ge", "eq", "ne", "contains", "getitem", "isinstance", "format", "round2", "instanceof", "subclassof"}
   UnOps = {"neg", "pos", "abs", "invert", "len", "iter", "hash", "bool", "str", "repr", "int", "float", "complex", "round", "trunc", "floor", "ceil", "pow3", "index", "reversed", "bytes", "next", "forloop", "unpack"}
-  Classes = {"int", "negint", "zero", "float", "bool", "str", "list", "tuple", "dict", "set", "none", "complex", "fwd", "refl", "decline", "sub", "valobj", "iterobj", "gen", "inf", "clsint", "clsuser"}
+  Classes = {"int", "negint", "zero", "float", "bool", "str", "list", "tuple", "dict", "set", "none", "complex", "fwd", "refl", "decline", "sub", "valobj", "iterobj", "gen", "inf", "clsint", "clsuser", "record"}
   MaxChain = 0
 INVARIANT TypeOK
 CONSTRAINT Export
